@@ -1148,6 +1148,17 @@ func (f *Frame) execUnOp(x *ssa.UnOp) {
 			return
 		}
 		p := f.ptrPath(v, x.Pos(), "load")
+		if p.Kind == rootGlobal && len(p.Steps) == 0 {
+			if _, isFunc := x.Type().Underlying().(*types.Signature); isFunc {
+				if fn := c.eng.constFuncGlobal(p.Glob); fn != nil {
+					c.note("call through package variable " + p.Glob.Name() + " resolved to " + fn.String() + " (the variable is assigned only by its initializer in the loaded program)")
+					lv := f.loadVal(p, x.Type())
+					lv.Fn = fn
+					f.set(x, lv)
+					return
+				}
+			}
+		}
 		f.set(x, f.loadVal(p, x.Type()))
 	case token.NOT:
 		f.set(x, Val{T: x.Type(), S: not(v.S)})
